@@ -243,21 +243,103 @@ func (n *normalizer) normalizeFunc(fd *ast.FuncDecl) (bool, error) {
 			continue
 		}
 		rs, ok := h.Body.List[len(h.Body.List)-1].(*ast.ReturnStmt)
-		if !ok || len(rs.Results) != 1 {
-			continue
-		}
-		cl, ok := rs.Results[0].(*ast.CompositeLit)
 		if !ok {
 			continue
 		}
-		// substitution: the helper's receiver -> ours, its locals -> x_<local>
+		// substitution: the helper's receiver -> ours, its locals -> their definitions
 		subst := map[types.Object]string{}
 		if hr := p.recvObj(h); hr != nil {
 			subst[hr] = recv.Name()
 		}
-		var parts []string
+		// form 2: a named result filled field by field, `r.f = e` … `return`
+		var named2 types.Object
+		if ros := resultObjs(info, h); len(ros) == 1 && ros[0] != nil && (len(rs.Results) == 0 || (len(rs.Results) == 1 && identObj(info, rs.Results[0]) == ros[0])) {
+			named2 = ros[0]
+		}
+		var cl *ast.CompositeLit
+		if named2 == nil {
+			if len(rs.Results) != 1 {
+				continue
+			}
+			c, ok := rs.Results[0].(*ast.CompositeLit)
+			if !ok {
+				continue
+			}
+			cl = c
+		}
+		if named2 != nil {
+			fields2 := map[string]string{}
+			okF := true
+			// r.g inside a later expression stands for what was assigned to it
+			textOf := func(e ast.Expr) (string, error) {
+				type rep struct {
+					a, b int
+					t    string
+				}
+				fn, o1 := n.file(e.Pos())
+				_, o2 := n.file(e.End())
+				src, err := n.source(fn)
+				if err != nil {
+					return "", err
+				}
+				var reps []rep
+				ast.Inspect(e, func(x ast.Node) bool {
+					switch y := x.(type) {
+					case *ast.SelectorExpr:
+						if identObj(info, y.X) == named2 {
+							if t, ok := fields2[y.Sel.Name]; ok {
+								_, a := n.file(y.Pos())
+								_, b := n.file(y.End())
+								reps = append(reps, rep{a, b, "(" + t + ")"})
+							} else {
+								okF = false
+							}
+							return false
+						}
+					case *ast.Ident:
+						obj := info.Uses[y]
+						if t, ok := subst[obj]; ok && obj != nil {
+							_, a := n.file(y.Pos())
+							reps = append(reps, rep{a, a + len(y.Name), t})
+						}
+					}
+					return true
+				})
+				sort.Slice(reps, func(i, j int) bool { return reps[i].a > reps[j].a })
+				out := string(src[o1:o2])
+				for _, r := range reps {
+					out = out[:r.a-o1] + r.t + out[r.b-o1:]
+				}
+				return strings.ReplaceAll(out, "\n", " "), nil
+			}
+			for _, hs := range h.Body.List[:len(h.Body.List)-1] {
+				ha, ok := hs.(*ast.AssignStmt)
+				if !ok || ha.Tok != token.ASSIGN || len(ha.Lhs) != 1 || len(ha.Rhs) != 1 {
+					okF = false
+					break
+				}
+				lse, ok := ha.Lhs[0].(*ast.SelectorExpr)
+				if !ok || identObj(info, lse.X) != named2 {
+					okF = false
+					break
+				}
+				t, err := textOf(ha.Rhs[0])
+				if err != nil {
+					return false, err
+				}
+				fields2[lse.Sel.Name] = t
+			}
+			if !okF {
+				continue
+			}
+			if ch, err := n.inlineRecord(fd, as, x, recv, hfn, h, fields2); err != nil {
+				return false, err
+			} else if ch {
+				changed = true
+			}
+			continue
+		}
 		okBody := true
-		xn := x.Name()
 		for _, hs := range h.Body.List[:len(h.Body.List)-1] {
 			ha, ok := hs.(*ast.AssignStmt)
 			if !ok || ha.Tok != token.DEFINE || len(ha.Lhs) != len(ha.Rhs) {
@@ -311,115 +393,11 @@ func (n *normalizer) normalizeFunc(fd *ast.FuncDecl) (bool, error) {
 		if !okBody {
 			continue
 		}
-		// every use of x in fd: x.f (field) or x.meth(...) with an equivalent wrapper on T
-		type use struct {
-			from, to token.Pos
-			text     string
-		}
-		var uses []use
-		useCount := map[string]int{}
-		needLocal := map[string]bool{}
-		okUses := true
-		var stack []ast.Node
-		ast.Inspect(fd.Body, func(nd ast.Node) bool {
-			if nd == nil {
-				stack = stack[:len(stack)-1]
-				return false
-			}
-			stack = append(stack, nd)
-			id, isID := nd.(*ast.Ident)
-			if !isID || info.Uses[id] != x {
-				return true
-			}
-			par, _ := stack[len(stack)-2].(*ast.SelectorExpr)
-			if par == nil || par.X != ast.Expr(id) {
-				okUses = false
-				return true
-			}
-			if sel := info.Selections[par]; sel != nil && sel.Kind() == types.FieldVal {
-				if _, has := fields[par.Sel.Name]; !has {
-					okUses = false
-					return true
-				}
-				uses = append(uses, use{par.Pos(), par.End(), "\x00" + par.Sel.Name})
-				useCount[par.Sel.Name]++
-				// `v := helper(x.f)`: the field only feeds the definition of another local
-				feeds := false
-				if len(stack) >= 4 {
-					if c, ok := stack[len(stack)-3].(*ast.CallExpr); ok && len(c.Args) == 1 && c.Args[0] == ast.Expr(par) {
-						if das, ok := stack[len(stack)-4].(*ast.AssignStmt); ok && das.Tok == token.DEFINE && len(das.Rhs) == 1 && das.Rhs[0] == ast.Expr(c) {
-							feeds = true
-						}
-					}
-				}
-				if !feeds {
-					needLocal[par.Sel.Name] = true
-				}
-				return true
-			}
-			// a method of the record: T must have a wrapper `return recv.h().meth(…)`
-			if wfd := p.method(par.Sel.Name); wfd != nil && wfd.Body != nil && (len(wfd.Body.List) == 1 || len(wfd.Body.List) == 2) {
-				// `return recv.h().meth(…)` or `v := recv.h(); return v.meth(…)`
-				var viaVar types.Object
-				if len(wfd.Body.List) == 2 {
-					if was, ok := wfd.Body.List[0].(*ast.AssignStmt); ok && was.Tok == token.DEFINE && len(was.Lhs) == 1 && len(was.Rhs) == 1 {
-						if ic, ok := was.Rhs[0].(*ast.CallExpr); ok && calleeOf(info, ic) == hfn {
-							viaVar = identObj(info, was.Lhs[0])
-						}
-					}
-				}
-				if wrs, ok := wfd.Body.List[len(wfd.Body.List)-1].(*ast.ReturnStmt); ok && len(wrs.Results) == 1 {
-					if wc, ok := wrs.Results[0].(*ast.CallExpr); ok {
-						if wse, ok := wc.Fun.(*ast.SelectorExpr); ok && wse.Sel.Name == par.Sel.Name {
-							inner, isCall := wse.X.(*ast.CallExpr)
-							if (isCall && calleeOf(info, inner) == hfn && len(wfd.Body.List) == 1) || (viaVar != nil && identObj(info, wse.X) == viaVar) {
-								uses = append(uses, use{par.X.Pos(), par.X.End(), recv.Name()})
-								return true
-							}
-						}
-					}
-				}
-			}
-			okUses = false
-			return true
-		})
-		if !okUses {
-			continue
-		}
-		var fnames []string
-		for f := range fields {
-			fnames = append(fnames, f)
-		}
-		sort.Strings(fnames)
-		// a field read once is substituted at its use, a field read several
-		// times becomes a local, a field never read disappears
-		nLocals := 0
-		for _, f := range fnames {
-			if useCount[f] > 1 || needLocal[f] {
-				parts = append(parts, xn+"_"+f+" := "+fields[f])
-				nLocals++
-			}
-		}
-		if err := n.edit(as.Pos(), as.End(), strings.Join(parts, "; ")); err != nil {
+		if ch, err := n.inlineRecord(fd, as, x, recv, hfn, h, fields); err != nil {
 			return false, err
+		} else if ch {
+			changed = true
 		}
-		for _, u := range uses {
-			t := u.text
-			if strings.HasPrefix(t, "\x00") {
-				f := t[1:]
-				if useCount[f] > 1 || needLocal[f] {
-					t = xn + "_" + f
-				} else {
-					t = "(" + fields[f] + ")"
-				}
-			}
-			if err := n.edit(u.from, u.to, t); err != nil {
-				return false, err
-			}
-		}
-		fnames = fnames[:nLocals]
-		changed = true
-		n.notes = append(n.notes, fmt.Sprintf("%s: the record returned by %s is inlined into %d locals", fd.Name.Name, h.Name.Name, len(fnames)))
 	}
 	return changed, nil
 }
@@ -470,4 +448,133 @@ func (w *World) normalizedWorld(key string, methods []string) (*World, []string,
 	}
 	w2.Tier, w2.Seed, w2.Verif, w2.Wants = w.Tier, w.Seed, w.Verif, w.Wants
 	return w2, n.notes, nil
+}
+
+// inlineRecord rewrites `x := recv.h()` in fd: every field of the record that
+// fd reads becomes a local (or is substituted where it is read).
+func (n *normalizer) inlineRecord(fd *ast.FuncDecl, as *ast.AssignStmt, x types.Object, recv *types.Var, hfn *types.Func, h *ast.FuncDecl, fields map[string]string) (bool, error) {
+	p := n.p
+	info := p.Info
+	xn := x.Name()
+	var parts []string
+	// every use of x in fd: x.f (field) or x.meth(...) with an equivalent wrapper on T
+	type use struct {
+		from, to token.Pos
+		text     string
+	}
+	var uses []use
+	useCount := map[string]int{}
+	needLocal := map[string]bool{}
+	okUses := true
+	var stack []ast.Node
+	ast.Inspect(fd.Body, func(nd ast.Node) bool {
+		if nd == nil {
+			stack = stack[:len(stack)-1]
+			return false
+		}
+		stack = append(stack, nd)
+		id, isID := nd.(*ast.Ident)
+		if !isID || info.Uses[id] != x {
+			return true
+		}
+		par, _ := stack[len(stack)-2].(*ast.SelectorExpr)
+		if par == nil || par.X != ast.Expr(id) {
+			okUses = false
+			return true
+		}
+		if sel := info.Selections[par]; sel != nil && sel.Kind() == types.FieldVal {
+			if _, has := fields[par.Sel.Name]; !has {
+				okUses = false
+				return true
+			}
+			uses = append(uses, use{par.Pos(), par.End(), "\x00" + par.Sel.Name})
+			useCount[par.Sel.Name]++
+			// `v := helper(x.f)`: the field only feeds the definition of another local
+			feeds := false
+			if len(stack) >= 4 {
+				if c, ok := stack[len(stack)-3].(*ast.CallExpr); ok && len(c.Args) == 1 && c.Args[0] == ast.Expr(par) {
+					if das, ok := stack[len(stack)-4].(*ast.AssignStmt); ok && das.Tok == token.DEFINE && len(das.Rhs) == 1 && das.Rhs[0] == ast.Expr(c) {
+						feeds = true
+					}
+				}
+			}
+			// `v, w := x.f, x.g`: the field is the whole definition of another local
+			if len(stack) >= 3 {
+				if das, ok := stack[len(stack)-3].(*ast.AssignStmt); ok && das.Tok == token.DEFINE {
+					for _, r := range das.Rhs {
+						if r == ast.Expr(par) {
+							feeds = true
+						}
+					}
+				}
+			}
+			if !feeds {
+				needLocal[par.Sel.Name] = true
+			}
+			return true
+		}
+		// a method of the record: T must have a wrapper `return recv.h().meth(…)`
+		if wfd := p.method(par.Sel.Name); wfd != nil && wfd.Body != nil && (len(wfd.Body.List) == 1 || len(wfd.Body.List) == 2) {
+			// `return recv.h().meth(…)` or `v := recv.h(); return v.meth(…)`
+			var viaVar types.Object
+			if len(wfd.Body.List) == 2 {
+				if was, ok := wfd.Body.List[0].(*ast.AssignStmt); ok && was.Tok == token.DEFINE && len(was.Lhs) == 1 && len(was.Rhs) == 1 {
+					if ic, ok := was.Rhs[0].(*ast.CallExpr); ok && calleeOf(info, ic) == hfn {
+						viaVar = identObj(info, was.Lhs[0])
+					}
+				}
+			}
+			if wrs, ok := wfd.Body.List[len(wfd.Body.List)-1].(*ast.ReturnStmt); ok && len(wrs.Results) == 1 {
+				if wc, ok := wrs.Results[0].(*ast.CallExpr); ok {
+					if wse, ok := wc.Fun.(*ast.SelectorExpr); ok && wse.Sel.Name == par.Sel.Name {
+						inner, isCall := wse.X.(*ast.CallExpr)
+						if (isCall && calleeOf(info, inner) == hfn && len(wfd.Body.List) == 1) || (viaVar != nil && identObj(info, wse.X) == viaVar) {
+							uses = append(uses, use{par.X.Pos(), par.X.End(), recv.Name()})
+							return true
+						}
+					}
+				}
+			}
+		}
+		okUses = false
+		return true
+	})
+	if !okUses {
+		return false, nil
+	}
+	var fnames []string
+	for f := range fields {
+		fnames = append(fnames, f)
+	}
+	sort.Strings(fnames)
+	// a field read once is substituted at its use, a field read several
+	// times becomes a local, a field never read disappears
+	nLocals := 0
+	for _, f := range fnames {
+		if useCount[f] > 1 || needLocal[f] {
+			parts = append(parts, xn+"_"+f+" := "+fields[f])
+			nLocals++
+		}
+	}
+	if err := n.edit(as.Pos(), as.End(), strings.Join(parts, "; ")); err != nil {
+		return false, err
+	}
+	for _, u := range uses {
+		t := u.text
+		if strings.HasPrefix(t, "\x00") {
+			f := t[1:]
+			if useCount[f] > 1 || needLocal[f] {
+				t = xn + "_" + f
+			} else {
+				t = "(" + fields[f] + ")"
+			}
+		}
+		if err := n.edit(u.from, u.to, t); err != nil {
+			return false, err
+		}
+	}
+	fnames = fnames[:nLocals]
+	n.notes = append(n.notes, fmt.Sprintf("%s: the record returned by %s is inlined into %d locals", fd.Name.Name, h.Name.Name, len(fnames)))
+
+	return true, nil
 }
